@@ -605,7 +605,7 @@ Print shutdown. Print all_ok.
         mon_failed |= set(res[clause])
     corr_clean = [i for i in corr_bad if i not in mon_failed]
     chk.cov["disagreements"]["on_scenarios_the_monitor_accepts"] = len(corr_clean)
-    if broken and (corr_clean or not st["build_ok"] or res["fuel"] or (not chk.violations and not chk.known_hits)):
+    if broken and (corr_clean or not st["build_ok"] or res["fuel"] or (not chk.violations)):
         chk.fail("broken.txt", "\n\n".join(broken), no_input=True)
     elif broken:
         chk.notes.append("also: " + "\n".join(broken)[:3000])
